@@ -300,8 +300,12 @@ func runC01(c *Ctx) {
 			case kind < 16: // registration attempts, valid and corrupted
 				id := r.U32()
 				bodyb = initPackage(id, id, r.Bytes(32), r.Bytes(16), genRegInfo(r))
-				if r.Chance(2, 3) {
+				switch r.Intn(6) {
+				case 0, 1, 2:
 					bodyb = mutate(r, bodyb)
+				case 3, 4: // every short tail: the last fields of a registration are fixed-width (4 and 8 bytes)
+					bodyb = bodyb[:len(bodyb)-1-r.Intn(16)]
+					c.Count("init.tailcut")
 				}
 				c.Count("init")
 			case kind < 18: // arbitrary bytes
